@@ -19,7 +19,7 @@ func init() {
 	run.Register(&run.Property{
 		ID:    "C03",
 		Title: "Validation accepts exactly the geometries that satisfy the OGC validity rules",
-		Rule: "cases = geometries built WITHOUT validation from lattice walks on grids of side 3..6 (rings of 3..9 vertices, polygons of 1..4 rings, MultiPolygons of 1..3 members, LineStrings, MultiLineStrings, MultiPoints, collections) with vertex-sharing bias (rings starting on a vertex of another ring, holes on shell vertices/edges, hole-in-hole sharing a vertex, touch chains), each under up to 64 representations (ring rotations, directions, hole and member permutations, integer translation, axis reflection); " +
+		Rule: "[added in rounds 9-11: payload-blind: Validate/IsSimple/IsClosed/IsRing and the decoder gate are re-judged on copies carrying independent Z/M at every control point] cases = geometries built WITHOUT validation from lattice walks on grids of side 3..6 (rings of 3..9 vertices, polygons of 1..4 rings, MultiPolygons of 1..3 members, LineStrings, MultiLineStrings, MultiPoints, collections) with vertex-sharing bias (rings starting on a vertex of another ring, holes on shell vertices/edges, hole-in-hole sharing a vertex, touch chains), each under up to 64 representations (ring rotations, directions, hole and member permutations, integer translation, axis reflection); " +
 			"exhaustive sub-spaces: every closed 3- and 4-vertex ring on the 3x3 grid; pairs of lattice triangles of the 4x4 grid as shell+hole and as two members; pairs of triangular holes from a 4x4 sub-grid in a fixed 7x7 shell under all start vertices and directions (complete in the thorough tier, strided in quick); NaN/Inf planted at every ordinate position. " +
 			"non-trivial = at least two rings/members whose envelopes intersect, or a ring with a self-contact; distinct by the canonical candidate text",
 		Assumptions:      []string{"lattice inputs: the oracle (verif/exact: ring simplicity, <=1 common point per ring pair, containment, nesting, interior connectedness by two independent criteria, member interiors/edges via the arrangement) is exact", "oracle inconsistency between its two connectedness criteria => case skipped and counted"},
